@@ -25,12 +25,15 @@ def run(rep, tier, seed, replay):
                 "any of text / compiled, not, the walker's programs, is_match / matched / get on sampled paths; non-trivial = distinct expressions "
                 "that build, or that have a bound or nesting beyond the ordinary")
     exprs = lib.inputs(rep, "C05", tier, seed, 2500, 30000, replay, malformed_share=0.35)
+    long_siblings = []
     if replay is None:
         # LENGTH without nesting or large numbers: many sibling alternations / optional repetitions / tree wildcards in one
         # concatenation (whatever a fold accumulates per sibling must not multiply), every query asked of each
         exprs += [e for e in ["{a,b/c}" * 24, "{a,b/c}" * 40, "{a,b}" * 40, "x{a,b/c}y/" * 20 + "z", "<a:0,1>" * 30 + "b", "{a,b/c,d/e/f}" * 16,
                               "<a/:0,1>" * 24 + "b", "{a,<b/:1,2>}" * 20, "{a/,b/c/}" * 24 + "*", "{*,?a}/" * 20 + "x", "a{b,c/d}" * 32]
                   if e not in set(exprs)]
+        long_siblings = exprs[-11:]
+        exprs = exprs[:-11]
     if replay is None:
         exprs += HUGE + [nested(n, k) for k in range(3) for n in (10, 60, 100, 124, 125, 150)]
         if tier != "quick":
@@ -55,6 +58,17 @@ def run(rep, tier, seed, replay):
     rep.evaluations = len(exprs)
     paths = ["", "a", "a/b", "/a", "aa", "a\nb", "é", "x/y/z.txt"]
     res = h.ask(["T %s %s" % (hexs(e), " ".join(hexs(p) for p in paths)) for e in exprs])
+    # the long sibling sequences are asked on their own, under a short time limit (an operation that is exponential in their
+    # length neither returns nor stops allocating: the child is killed by the limit on its address space or by the clock)
+    if long_siblings:
+        for e, line in zip(long_siblings, h.ask(["T %s %s" % (hexs(e), " ".join(hexs(p) for p in paths)) for e in long_siblings], timeout=25)):
+            rep.evaluations += 1
+            bad = [x for x in line.split(" ") if "=panic" in x]
+            if line.startswith("died") or line.startswith("new=panic") or bad:
+                rep.violation("oracle", "an operation on %d sibling groups in one concatenation does not return (or panics): %s" % (e.count("{") + e.count("<"), line[:120]),
+                              {"expr": e, "what": "long-siblings"}, impl=line[:300])
+            else:
+                rep.stats["long sibling sequences: every operation returns"] += 1
     big = [e for e in exprs if len(e) > 2000]
     mod = dict(zip([e for e in exprs if len(e) <= 2000], m.ask(["B " + hexs(e) for e in exprs if len(e) <= 2000])))
     findings, _ = common.load_findings("C05")
